@@ -65,23 +65,27 @@ func drawCase(t *rapid.T) Case {
 		}
 	}
 	pool = rapid.Permutation(pool).Draw(t, "pool")
-	nL := rapid.IntRange(1, min(6, len(pool))).Draw(t, "nledgers")
+	// (rapid favours small draws: the tables put the common shapes first)
+	nL := min([]int{2, 3, 2, 3, 4, 4, 1, 5, 5, 6, 6, 3}[rapid.IntRange(0, 11).Draw(t, "nledgers")], len(pool))
 	c.Ledgers = pool[:nL]
 	idx := make([]int, nL)
 	for i := range c.Ledgers {
 		c.Ledgers[i].Reg = rapid.IntRange(0, 9).Draw(t, "reg") < 8
-		c.Ledgers[i].Fail = rapid.IntRange(0, 9).Draw(t, "fail") < 2
+		c.Ledgers[i].Fail = rapid.IntRange(0, 9).Draw(t, "fail") >= 8
 		idx[i] = i
 	}
 
 	// 0..8 multi-ledger assets, ledgers repeated in any order
-	nA := rapid.IntRange(0, 8).Draw(t, "nassets")
+	nA := 0
+	if k := rapid.IntRange(0, 16).Draw(t, "nassets"); k < 16 {
+		nA = k%8 + 1
+	}
 	c.Assets = make([]int, 0, nA+1)
 	for i := 0; i < nA; i++ {
 		c.Assets = append(c.Assets, rapid.IntRange(0, nL-1).Draw(t, "asset"))
 	}
 	// optionally one asset that is not a multi-ledger asset, at any position
-	if rapid.IntRange(0, 11).Draw(t, "nonmulti") == 0 {
+	if rapid.IntRange(0, 15).Draw(t, "nonmulti") == 9 {
 		p := rapid.IntRange(0, nA).Draw(t, "nonmultipos")
 		c.Assets = append(c.Assets, 0)
 		copy(c.Assets[p+1:], c.Assets[p:])
@@ -108,7 +112,7 @@ func drawCase(t *rapid.T) Case {
 	return c
 }
 
-const rule = "configurations: method in {register, progress, withdraw, fund}; a universe of 1-6 distinct ledgers = (backend id in {0,1}, ledger id out of 1-5) each registered (80%) or not and scripted to return nil or an error (20%); an asset list of 0-8 multi-ledger assets over that universe (repetitions in any order, same ledger id under both backend ids) plus, in 1 of 12 cases, one asset that is not a multi-ledger asset at any position; a completion order (permutation) for the concurrent sub-calls - every scripted adjudicator/funder blocks until the harness releases it, one at a time in that order, the next one only after the previous has returned; fund only: egoistic index unset / a position of the ledger universe / any position 0-8; request variation (own index, secondary flag, version, 0-2 sub-states). " +
+const rule = "configurations: method in {register, progress, withdraw, fund}; a universe of 1-6 distinct ledgers = (backend id in {0,1}, ledger id out of 1-5) each registered (about 5 in 6) or not and scripted to return nil or an error (about 1 in 6); an asset list of 0-8 multi-ledger assets over that universe (repetitions in any order, same ledger id under both backend ids) plus, in about 1 of 20 cases, one asset that is not a multi-ledger asset at any position; a completion order (permutation) for the concurrent sub-calls - every scripted adjudicator/funder blocks until the harness releases it, one at a time in that order, the next one only after the previous has returned; fund only: egoistic index unset / a position of the ledger universe / any position 0-8; request variation (own index, secondary flag, version, 0-2 sub-states). " +
 	"oracle (from the property text, over the call log of the scripted callees and the returned error, evaluated after every started callee has returned): every registered ledger among the distinct (backend id, ledger id) pairs of the asset list receives exactly one call, of the dispatched method, with a request and sub-state argument deeply equal to the original; registered ledgers not among the assets receive none; the result is nil only if every distinct ledger is registered, every forwarded call returned nil and had returned when the dispatcher returned; the result is an error if a distinct ledger is unregistered or a callee failed; it is nil if neither is the case (method documentation: 'if any of the calls fails, the method returns an error'; positive twin of the refusals). egoistic funder (index i selects the i-th distinct ledger in first-occurrence order, as funder.go and the anchor 'distinct ledger ids in first-occurrence order' define it): the call on the selected ledger starts only after the call on every other distinct ledger has returned nil, and is not made if another distinct ledger is unregistered or failed; an index outside the distinct list selects nothing. " +
 	"not asserted (property text silent, counted as unspecified:*): result and forwarding for an empty asset list and for a list with a non-multi-ledger asset (only 'no call to a ledger outside the list' and 'at most one call per ledger' are kept; a panic is counted, not reported). " +
 	"non-trivial = specified case with >= 2 distinct ledgers and at least one of {a ledger repeated in the asset list, a distinct ledger without registration, a distinct registered ledger whose callee fails, fund with an egoistic index that selects a ledger}; distinct by SHA-256 of the canonical case JSON"
